@@ -16,7 +16,7 @@ PROPERTY = "C14"
 CLAUSES = []
 ASSUMPTIONS = [
     "records: finite float64 (array level also integer-dtype and list variants), |a| <= 1e9; dt, target in about [1e-5, 30] with "
-    "max(dt/target, target/dt) <= 60 (interpolation) / 30 (Fourier), output length <= 130 000 samples",
+    "max(dt/target, target/dt) <= 80 (interpolation) / 30 (Fourier), output length <= 130 000 samples",
     "duration precondition of the quantifier, constructed in exact rational arithmetic: (npts-1)*dt >= 2*max(dt, target)",
     "all step / ratio / length comparisons are evaluated in exact rational arithmetic on the doubles that were passed and "
     "returned (fractions.Fraction), so the only tolerances are the stated ones: 'does not exceed the target' allows 4 eps "
@@ -45,7 +45,7 @@ ASSUMPTIONS = [
 EPS = np.finfo(float).eps
 LD = np.longdouble
 TWO_PI = 2 * np.arccos(LD(-1))
-KMAX_INTERP = 60
+KMAX_INTERP = 80
 KMAX_FOURIER = 30
 OUT_CAP = 130000
 NINE = Fraction(1, 10 ** 9)
@@ -90,24 +90,44 @@ def _nudge(x, n):
     return x
 
 
+# strategies are built once (building / validating them inside a composite costs more than the check itself)
+_FAM = st.sampled_from(["indep"] * 3 + ["ratio"] * 3 + ["comm"] * 3 + ["dec3"] * 2 + ["t01", "ulp", "equal"])
+_DTS = gen.dts(1e-3, 1.0)
+_BASE = gen.dts(1e-3, 0.5)
+_BOOL = st.booleans()
+_HOW = st.sampled_from(["dt/k", "t*k", "dt*k", "t/k"])
+_ULPS = st.sampled_from([-2, -1, 1, 2])
+_LO100 = st.integers(1, 100)
+_LO999 = st.one_of(st.integers(1, 60), st.integers(1, 999))
+_DT01 = st.one_of(st.sampled_from([d for d in gen.REPO_DTS if d <= 0.2]), gen.log_uniform(1e-3, 0.3))
+_PER_KMAX = {}
+
+
+def _kmax_strategies(kmax):
+    if kmax not in _PER_KMAX:
+        _PER_KMAX[kmax] = (gen.log_uniform(1e-3, kmax - 1.0), gen.log_uniform(1e-3, kmax - 2.0), st.integers(2, kmax))
+    return _PER_KMAX[kmax]
+
+
 @st.composite
 def _pairs(draw, kmax):
     """(dt, target) pairs: independent, generic ratio, commensurate (float product / quotient), thousandths, default target,
     neighbours of an integer quotient, equal."""
-    fam = draw(st.sampled_from(["indep"] * 3 + ["ratio"] * 3 + ["comm"] * 3 + ["dec3"] * 2 + ["t01", "ulp", "equal"]))
+    r_refine, r_decim, k_int = _kmax_strategies(kmax)
+    fam = draw(_FAM)
     if fam == "indep":
-        dt = draw(gen.dts(1e-3, 1.0))
-        target = draw(gen.dts(1e-3, 1.0))
+        dt = draw(_DTS)
+        target = draw(_DTS)
     elif fam == "ratio":
-        dt = draw(gen.dts(1e-3, 1.0))
-        if draw(st.booleans()):
-            target = dt / (1.0 + draw(gen.log_uniform(1e-3, kmax - 1.0)))   # refinement, dt/target in (1, kmax]
+        dt = draw(_DTS)
+        if draw(_BOOL):
+            target = dt / (1.0 + draw(r_refine))   # refinement, dt/target in (1, kmax]
         else:
-            target = dt * (2.0 + draw(gen.log_uniform(1e-3, kmax - 2.0)))   # decimation, target/dt in (2, kmax]
+            target = dt * (2.0 + draw(r_decim))    # decimation, target/dt in (2, kmax]
     elif fam in ("comm", "ulp"):
-        k = draw(st.integers(2, kmax))
-        base = draw(gen.dts(1e-3, 0.5))
-        how = draw(st.sampled_from(["dt/k", "t*k", "dt*k", "t/k"]))
+        k = draw(k_int)
+        base = draw(_BASE)
+        how = draw(_HOW)
         if how == "dt/k":
             dt, target = base, base / k
         elif how == "t*k":
@@ -117,26 +137,29 @@ def _pairs(draw, kmax):
         else:
             dt, target = base / k, base
         if fam == "ulp":
-            target = _nudge(target, draw(st.sampled_from([-2, -1, 1, 2])))
+            target = _nudge(target, draw(_ULPS))
     elif fam == "dec3":
-        if draw(st.booleans()):
-            lo = draw(st.integers(1, 100))
+        if draw(_BOOL):
+            lo = draw(_LO100)
             hi = lo * draw(st.integers(2, max(2, min(kmax, 1000 // lo))))
         else:
-            lo = draw(st.one_of(st.integers(1, 60), st.integers(1, 999)))
+            lo = draw(_LO999)
             hi = draw(st.integers(lo, min(999, lo * kmax)))
-        dt, target = (hi / 1000.0, lo / 1000.0) if draw(st.booleans()) else (lo / 1000.0, hi / 1000.0)
+        dt, target = (hi / 1000.0, lo / 1000.0) if draw(_BOOL) else (lo / 1000.0, hi / 1000.0)
     elif fam == "t01":
         target = 0.01
-        dt = draw(st.one_of(st.sampled_from([d for d in gen.REPO_DTS if d <= 0.2]), gen.log_uniform(1e-3, 0.3)))
+        dt = draw(_DT01)
     else:
-        dt = draw(gen.dts(1e-3, 1.0))
+        dt = draw(_DTS)
         target = dt
     assume(Fraction(dt) <= kmax * Fraction(target) and Fraction(target) <= kmax * Fraction(dt))
     return {"dt": float(dt), "target": float(target), "fam": fam}
 
 
 FORMS = ["pos", "kw", "defaults"]
+_FORM = st.sampled_from(FORMS)
+_PAIRS_INTERP = _pairs(KMAX_INTERP)
+_PAIRS_FOURIER = _pairs(KMAX_FOURIER)
 
 
 def _call(ctx, fn, lead, target, even, form):
@@ -222,7 +245,7 @@ LONG_KINDS = ["noise", "sines", "pulse", "step", "walk", "const", "quake"]
 
 @st.composite
 def _interp_cases(draw):
-    p = draw(_pairs(KMAX_INTERP))
+    p = draw(_PAIRS_INTERP)
     dt, target = p["dt"], p["target"]
     mode, k = _ref_factor(dt, target)
     nmin = _min_npts(dt, target)
@@ -236,20 +259,19 @@ def _interp_cases(draw):
                                      allow_zero_runs=False))
     else:
         spec = draw(gen.record_specs(min_n=nmin, max_n=max_n, kinds=None if nmin <= 40 else LONG_KINDS, allow_int=True))
-    return {"rec": spec, "dt": dt, "target": target, "even": draw(st.booleans()), "form": draw(st.sampled_from(FORMS)),
-            "fam": p["fam"]}
+    return {"rec": spec, "dt": dt, "target": target, "even": draw(_BOOL), "form": draw(_FORM), "fam": p["fam"]}
 
 
 @clause(CLAUSES, "interp-rule", _interp_cases(), quick=2000, thorough=10000,
-        rule="(dt, target) pairs: independent log-uniform / repo rates, log-uniform ratio in (1, 60], commensurate (target = dt*k, dt/k, dt = target*k, target/k as "
-             "float products, k <= 60), thousandths (multiples and free), default target 0.01, 1-2 ulp neighbours of a commensurate "
+        rule="(dt, target) pairs: independent log-uniform / repo rates, log-uniform ratio in (1, 80], commensurate (target = dt*k, dt/k, dt = target*k, target/k as "
+             "float products, k <= 80), thousandths (multiples and free), default target 0.01, 1-2 ulp neighbours of a commensurate "
              "target, dt == target; records of all kinds (float / int / list) with npts from the duration precondition up to 3000; "
              "even in {T, F}; positional / keyword / defaults-omitted calls; non-trivial = returned step != dt and record not constant",
         oracle="reference model in exact rational arithmetic on the returned step (step <= target*(1+4eps), ratio within 1e-9 of an "
                "integer, even length, |len*new_dt - npts*dt| < 2 max(dt,new_dt)); refinement out[::k] == record bitwise; decimation "
                "out[i] == record[i*k] to 4 eps (npts*range + max|a|); range +- 4 eps max|a|; differential: interp_to_approx_dt "
                "(AccSignal) == array level, bitwise; inputs unchanged",
-        require={"refine": 0.25, "decimate": 0.25, "near-int": 0.10, "dt==target": 0.03, "even-truncated": 0.05, "k>4": 0.15,
+        require={"refine": 0.25, "decimate": 0.25, "near-int": 0.10, "dt==target": 0.03, "even-truncated": 0.04, "k>4": 0.15,
                  "q-near-int-below": 0.01, "q-near-int-above": 0.01},
         min_nontrivial=0.5)
 def interp_rule(case, ctx):
@@ -316,29 +338,30 @@ def interp_rule(case, ctx):
 # clause 2: periodic (Fourier) resampling
 
 _unit = st.one_of(st.floats(0.0, 1.0, allow_nan=False), st.just(1.0), st.just(0.0))
+_COMP = st.tuples(_unit, gen.scalars(1e-3, 1e3), st.floats(0.0, 6.2831, allow_nan=False)).map(list)
+_COMPS = st.lists(_COMP, min_size=1, max_size=3)
+_FLAVOUR = st.sampled_from(["mult", "mult", "free"])
 
 
 @st.composite
 def _fourier_cases(draw):
-    p = draw(_pairs(KMAX_FOURIER))
+    p = draw(_PAIRS_FOURIER)
     dt, target = p["dt"], p["target"]
     mode, k = _ref_factor(dt, target)
     nmin = max(3, _min_npts(dt, target))
     cap = 1500 if tier() == "quick" else 2500
     cap = max(nmin, min(cap, 60000 // k)) if mode == "refine" else max(nmin, cap)
-    flavour = draw(st.sampled_from(["mult", "mult", "free"])) if mode == "decimate" else "free"
+    flavour = draw(_FLAVOUR) if mode == "decimate" else "free"
     if flavour == "mult":
         q_min = max(3, -(-nmin // k))
         q = draw(st.one_of(st.integers(q_min, q_min + 9), st.integers(q_min, max(q_min, cap // k))))
-        if draw(st.booleans()):
+        if draw(_BOOL):
             q += q % 2
         npts = k * q
     else:
         npts = draw(st.one_of(st.integers(nmin, min(cap, nmin + 12)), st.integers(nmin, cap)))
-    ncomp = draw(st.integers(1, 3))
-    comps = [[draw(_unit), draw(gen.scalars(1e-3, 1e3)), draw(st.floats(0.0, 6.2831, allow_nan=False))] for _ in range(ncomp)]
-    return {"npts": npts, "dt": dt, "target": target, "even": draw(st.booleans()), "comps": comps,
-            "form": draw(st.sampled_from(FORMS)), "fam": p["fam"]}
+    return {"npts": npts, "dt": dt, "target": target, "even": draw(_BOOL), "comps": draw(_COMPS), "form": draw(_FORM),
+            "fam": p["fam"]}
 
 
 def _band_limit(npts, dt, target):
